@@ -755,8 +755,81 @@ def run_iter(res, ast):
         res.missing("SV-NODOUBLE", m)
 
 
+def run_dedup_cmp(res, ast):
+    """SV-DEDUP: the inline compaction loop of dedup keeps an element iff it differs from the *last kept* one.  The slots compared by the test that
+    decides keep / drop are evaluated as polynomials over the loop index and the running size: they must be {i, size - 1}.  (Comparing with any
+    other slot gives a different result than Vec::dedup for some input.)"""
+    from rusteval import Poly
+    res.rule("SV-DEDUP", "SmallVec::dedup, inline representation: the keep/drop test compares slot i (the loop index) with slot size - 1 (the last element kept so far)",
+             floor=1, what="tests")
+    fn = ast.fn(SV, "dedup")["node"]
+    w = where(SV, fn, "dedup")
+    loops = [l for l in walk_t(fn["body"], "ForLoop") if l["pat"]["t"] == "PIdent"]
+    if len(loops) != 1:
+        res.bad("SV-DEDUP", f"{SV}|dedup|loop", w, f"expected one per-slot loop in dedup, found {len(loops)}")
+        return
+    loop = loops[0]
+    iv = loop["pat"]["name"]
+
+    def ev(e, env):
+        e = strip_paren(e)
+        t = e["t"]
+        if t == "Lit" and e.get("kind") == "int":
+            return Poly.const(int(e["digits"]))
+        if t == "Cast":
+            return ev(e["expr"], env)
+        if t == "PathExpr":
+            n = e["path"]["name"]
+            if n in env:
+                return env[n]
+            return Poly.var(n)
+        if t == "Field" and e["member"] == "size":
+            return Poly.var("size")
+        if t == "Binary" and e["op"] in ("+", "-"):
+            a, b = ev(e["left"], env), ev(e["right"], env)
+            return a + b if e["op"] == "+" else a - b
+        if t == "MethodCall" and e["method"] in ("wrapping_sub", "wrapping_add", "saturating_sub") and len(e["args"]) == 1:
+            a, b = ev(e["receiver"], env), ev(e["args"][0], env)
+            return a - b if "sub" in e["method"] else a + b
+        raise ValueError(ast.src1(SV, e))
+    env = {iv: Poly.var("i")}
+    test = None
+    try:
+        for st in loop["body"]["stmts"]:
+            if st["t"] == "Local" and st["pat"]["t"] == "PIdent" and st.get("init") is not None:
+                try:
+                    env[st["pat"]["name"]] = ev(st["init"], env)
+                except (ValueError, KeyError, TypeError):
+                    pass
+                continue
+            ifs = [st["expr"]] if st["t"] == "ExprStmt" and strip_paren(st["expr"])["t"] == "If" else []
+            for i_ in ifs:
+                c = strip_paren(strip_paren(i_)["cond"])
+                while c["t"] == "Unary" and c["op"] == "!":
+                    c = strip_paren(c["expr"])
+                if c["t"] == "Binary" and c["op"] in ("==", "!=") and all(any(True for _ in walk_t(c[k], "Index")) for k in ("left", "right")):
+                    test = c
+            if test is not None:
+                break
+        if test is None:
+            res.bad("SV-DEDUP", f"{SV}|dedup|test", where(SV, loop, "dedup"), "the comparison of two slots that decides keep / drop was not found in the loop")
+            return
+        idx = []
+        for k in ("left", "right"):
+            ix = [n_ for n_ in walk_t(test[k], "Index")]
+            idx.append(ev(ix[0]["index"], env))
+        want = [Poly.var("i"), Poly.var("size") - Poly.const(1)]
+        ok = (idx[0] == want[0] and idx[1] == want[1]) or (idx[0] == want[1] and idx[1] == want[0])
+        res.check(ok, "SV-DEDUP", f"{SV}|dedup|test", where(SV, test, "dedup"),
+                  f"dedup compares slot {idx[0]} with slot {idx[1]}; it must compare the loop's slot i with the last kept slot size - 1 (as Vec::dedup does)")
+    except (ValueError, KeyError, TypeError, IndexError) as u_:
+        res.bad("SV-DEDUP", f"{SV}|dedup|test", where(SV, loop, "dedup"), f"cannot be analysed (fail closed): {u_}")
+
+
 def run_sv(res, ast):
     res.files.add(SV)
+    with res.guard("SV-DEDUP"):
+        run_dedup_cmp(res, ast)
     with res.guard("SV-REPR-GUARD"):
         run_repr_guard(res, ast)
     with res.guard("SV-DISPOSE"):
